@@ -285,9 +285,11 @@ def rule_geometry(col, R, rid, names, sfx=""):
                     col.violation(rid + sfx, key, b.loc(ev.bb), "%s recurses with node %s and bounds (%s, %s); node 2i+1 must go with (vl, (vl+vr)/2) and 2i+2 with ((vl+vr)/2+1, vr): a different node than the one built for that range is addressed" % (b.path, tstr(a_i), tstr(a_l), tstr(a_r)))
 
 
-def rule_helpers_geometry(col, R, rid, sfx=""):
+def rule_helpers_geometry(col, R, rid, sfx="", only=None):
     fk = util.fkey
     for nm, callee in (("push_at", "push"), ("merge_at", "update"), ("rebuild_empty", "update")):
+        if only is not None and nm not in only:
+            continue
         b = R.fn[nm]
         I = analyse(b)
         node = 1 if nm != "rebuild_empty" else infer_positions(I, b)[0]
@@ -520,6 +522,27 @@ def rule_routing(col, R, rid, sfx, only=None):
                     col.ok(rid + sfx, b.loc(recs[0].bb), key, "the routed ranges concatenate to [l, r] in index order")
                 else:
                     col.violation(rid + sfx, "%s|partition" % fk(b), b.loc(recs[0].bb), "the query ranges handed to the children on one path do not partition [l, r] in index order: %s" % ", ".join("[%s, %s]" % (tstr(a), tstr(c)) for a, c, _ in ranges))
+            if fam in ("fwd", "rev"):
+                # the searches visit the near part first: the first routed range starts at the query's own near end
+                # (no element between it and the child's range is skipped — `l < m` instead of `l <= m` loses index m),
+                # and a second range continues exactly where the first one ended
+                facts = set(st.facts)
+                for (op, x, y) in entry:
+                    facts.add(("eq", ("bin", op, x, y), 1))
+                z = zones.zone_of(frozenset((f[0], norm_mid(f[1], Pvl, Pvr), f[2]) if f[0] != "imp" else f for f in facts), I.tys)
+                if fam == "fwd":
+                    ok = z.entails("Eq", ranges[0][0], Pl)
+                    for (a1, b1, _), (a2, b2, _) in zip(ranges, ranges[1:]):
+                        ok = ok and z.entails("Eq", ("bin", "Add", b1, mk_int(1)), a2)
+                else:
+                    ok = z.entails("Eq", ranges[0][1], Pr)
+                    for (a1, b1, _), (a2, b2, _) in zip(ranges, ranges[1:]):
+                        ok = ok and z.entails("Eq", ("bin", "Add", b2, mk_int(1)), a1)
+                key = "%s|no-gap|%d" % (fk(b), len(ranges))
+                if ok:
+                    col.ok(rid + sfx, b.loc(recs[0].bb), key, "the routed ranges start at the query's near end and continue without a gap")
+                else:
+                    col.violation(rid + sfx, "%s|no-gap" % fk(b), b.loc(recs[0].bb), "the ranges the search hands to the children on one path leave a gap in [l, r]: %s — an index is never examined" % ", ".join("[%s, %s]" % (tstr(a), tstr(c)) for a, c, _ in ranges))
     # entries establish the invariant at the root
     for pub, internal, fam in (("ask", "ask_internal", "range"), ("modify", "modify_internal", "range"), ("set", "set_internal", "point"), ("lower_bound", "lower_bound_internal", "fwd"), ("lower_bound_rev", "lower_bound_rev_internal", "rev")):
         if only and internal not in only:
